@@ -9,7 +9,8 @@ if ! git diff --quiet; then echo "/repo has uncommitted changes"; exit 2; fi
 if ! git apply --check "$P" 2>/dev/null; then
   if git apply --3way --check "$P" 2>/dev/null; then MODE=--3way; else echo "PATCH DOES NOT APPLY: $P"; exit 3; fi
 else MODE=""; fi
-git apply $MODE "$P" || exit 3
+git apply $MODE "$P" || { git reset -q --hard HEAD; echo "PATCH DOES NOT APPLY CLEANLY: $P"; exit 3; }
+if [ -n "$(git diff --name-only --diff-filter=U)" ]; then git reset -q --hard HEAD; echo "PATCH CONFLICTS WITH THE CURRENT TREE: $P"; exit 3; fi
 export GOFLAGS=-mod=mod GOPROXY=off
 if go build ./... >/tmp/mt-build.log 2>&1 && go test -vet=off -count=1 ./... >/tmp/mt-test.log 2>&1; then echo "repo tests: PASS (mutant is realistic)"; else echo "repo tests: FAIL (mutant rejected)"; tail -5 /tmp/mt-test.log; fi
 cd /verif
